@@ -14,7 +14,13 @@ void shutdown_quiet();              // destroy whatever is left without checking
 // expectations
 enum CreateRes { CR_OK = 0, CR_LOGIC_ERROR, CR_OTHER };
 int create(const Spec& s);          // returns CreateRes; on CR_OK slot holds the expectation
-void release(int slot);             // slot index over NSLOT+NLIT
+void release(int slot);             // slot index over NSLOT+NLIT (scoped slots have no handle)
+// Scoped block: { <scoped expectation A> [<scoped expectation B>] calls... } executed inside one C++ scope with the
+// non-NAMED macros (B may be null). step(kind, index, result) is invoked after every sub-step: kind 0 = A created, 1 = B created,
+// 2 = call #index returned, 3 = B destroyed (scope exit), 4 = A destroyed.
+struct ScopedCall { int func, a0, a1; };
+void scoped_run(int obj, const Spec* A, const Spec* B, const std::vector<ScopedCall>& calls,
+                void (*step)(void* ctx, int kind, int index, const CallResult& r), void* ctx);
 bool exp_alive(int slot);
 bool is_satisfied(int slot);
 bool is_saturated(int slot);
